@@ -43,6 +43,7 @@ type vfYSched struct {
 	on    bool
 	byG   map[uint64]*vfYTask
 	spawn func(site string) *vfYTask // registers a child task (called with mu held, on the child's goroutine)
+	spins map[uint64]int             // unscheduled lock waits per goroutine (yields off)
 }
 
 // vfGoid: the id of the calling goroutine (from its stack header); tasks are recognised by goroutine, so that a goroutine
@@ -79,8 +80,46 @@ func vfC20AAvailable() bool {
 	return vfC20AProbe.ok
 }
 
+func init() {
+	// installed for the life of the process (only yield-instrumented copies ever call them; with the scheduler off a yield is a no-op
+	// and a lock wait steps aside, see below)
+	watcher.VerifYield = func(site string) { vfY.yield(site, false) }
+	watcher.VerifBlock = func(site string) { vfY.yield(site, true) }
+}
+
 func (s *vfYSched) yield(site string, blocked bool) {
 	if !s.on {
+		if blocked {
+			// an instrumented lock acquisition is a cooperative spin. With the scheduler off (the clean-up after a verdict, the sequential
+			// parts of a run) a waiter gives the others a chance to finish and release; a lock that is still taken after that will never
+			// be released: the waiter rests for ever instead of spinning into the worker's watchdog, and the bubble ends with its report
+			// that goroutines remain blocked (a "deadlock" verdict given before stands; without one it is harness trouble, as before)
+			g := vfGoid()
+			s.mu.Lock()
+			if s.spins == nil {
+				s.spins = map[uint64]int{}
+			}
+			s.spins[g]++
+			n := s.spins[g]
+			s.mu.Unlock()
+			if n > 200000 {
+				// nobody is scheduled against this goroutine and nobody released the lock while it stepped aside 200 000 times: whoever took it
+				// is gone without giving it back ("every later validation reflects the new contents" can never come true)
+				if w := vfCurrentWorld; w != nil {
+					w.mu.Lock()
+					first := w.viol == nil
+					if first {
+						w.viol = &vfViolation{Prop: "C20", Oracle: "deadlock", Key: "lock-never-released", Detail: "an operation waits at " + site + " for a lock that no running operation holds: it was taken and never released (a reload / validation never answers)"}
+					}
+					w.mu.Unlock()
+					if first {
+						w.logf("VIOLATE", "C20|deadlock|lock-never-released an operation waits at %s for a lock that no running operation holds", site)
+					}
+				}
+				select {}
+			}
+			runtime.Gosched()
+		}
 		return
 	}
 	g := vfGoid()
@@ -121,7 +160,8 @@ func vfC20A(w *vfWorld) {
 	emv := NewValidator([]string{"never-matches.invalid"}, emFile)
 	watcher.VerifYield = func(site string) { vfY.yield(site, false) }
 	watcher.VerifBlock = func(site string) { vfY.yield(site, true) }
-	defer func() { watcher.VerifYield, watcher.VerifBlock, vfY.on, vfY.cur = nil, nil, false, nil }()
+	// (the hooks stay installed when the run ends: with the scheduler off they only serve a goroutine that still waits for a lock, see yield)
+	defer func() { vfY.on, vfY.cur = false, nil }()
 	users := []string{"alice", "bob", "carol", "dave", "erin", "nobody"}
 	passes := []string{"pw1", "pw2", "pw3", "pw4", "pw5", "pw1-changed", "wrong"}
 	var history []*vfC20Op
@@ -216,6 +256,7 @@ func vfC20A(w *vfWorld) {
 		started := map[int]bool{}
 		vfY.mu.Lock()
 		vfY.byG = map[uint64]*vfYTask{}
+		vfY.spins = map[uint64]int{}
 		vfY.spawn = func(site string) *vfYTask {
 			tk := &vfYTask{child: true, id: len(tasks), op: &vfC20Op{Kind: "child"}, resume: make(chan struct{}), parked: make(chan string)}
 			tasks = append(tasks, tk)
